@@ -228,6 +228,9 @@ def laws(rng, tier, ctx):
         except Timeout:
             yield Finding('violation', case, 'listby / groupby did not return')
             continue
+        except Exception as e:
+            yield Finding('violation', case, 'listby / unlist / groupby / ungroup raised %s on a valid call' % type(e).__name__)
+            continue
         lkeys = list(zip(*[L[k] for k in by]))
         msg = None
         if any(same(lkeys[i], lkeys[j]) for i in range(len(L)) for j in range(i)):
@@ -273,6 +276,9 @@ def laws(rng, tier, ctx):
             U = guarded(lambda: Q.unpivot(xs, 'y', 'z'))
         except Timeout:
             yield Finding('violation', case, 'pivot did not return')
+            continue
+        except Exception as e:
+            yield Finding('violation', case, 'pivot / unpivot raised %s on a valid call' % type(e).__name__)
             continue
         n = len(d)
         xk = list(zip(*[d[k] for k in xn]))
